@@ -42,6 +42,7 @@ ASYNC18 = "async fn  af( ){ }\nfn  uses_dyn(x:&dyn Fn()){ }\n"
 ASYNC15 = "fn  old( ){let async=1;let r#try=2;}\n"
 LAZYBAD = ("fn  before( ){ }\nlazy_static! {\n    static ref TABLE: Vec<u32> = {\n        let mut v = Vec::new();\n        v.push(1)\n"
            "        v\n    };\n}\n")
+OVERLONG = "fn  over( ){ let %s = 1; }\n" % ("x" * 130)
 MACCALL = "fn  mc( ){foo!( a+1 ,b*2 );let v=bar![1+1 ,2];}\n"
 SKIPMAC = '''#![rustfmt::skip::macros(keep,keep2)]
 fn  uses( ){keep!( a ,b );keep2!(1 ,  2);other!( a ,b );}
@@ -59,7 +60,7 @@ def generate(rng, tier):
         else:
             d = "d%d" % i
         dirs.append(d)
-        extra = rng.choice(["", "", "", MACRO, SKIPMAC, ASYNC18, ASYNC18, ASYNC15, "perfile", "perfile", "perfile"])
+        extra = rng.choice(["", "", "", MACRO, SKIPMAC, ASYNC18, ASYNC18, ASYNC15, "perfile", "perfile", "perfile", "warn", "warn"])
 
         def body(r, extra=extra):
             if extra == "perfile":
@@ -69,9 +70,12 @@ def generate(rng, tier):
                 if k < 2:
                     return LAZYBAD  # (no other macro call may follow it in the file)
                 return [MACCALL, MACCALL, MACRO, ""][k - 2] + (gen_rust.unformatted(r, 1 + r.below(2)) if r.chance(50) else "")
+            if extra == "warn":
+                # several files of one tree each earn a warning (a line that cannot be made to fit)
+                return OVERLONG + gen_rust.unformatted(r, 1)
             return extra + gen_rust.unformatted(r, 1 + r.below(3))
 
-        t = gen_tree.gen_crate(rng, base=d, root_name="r%d.rs" % i, max_files=rng.choice([1, 1, 2, 3]) if extra != "perfile" else rng.choice([3, 4]),
+        t = gen_tree.gen_crate(rng, base=d, root_name="r%d.rs" % i, max_files=rng.choice([1, 1, 2, 3]) if extra not in ("perfile", "warn") else rng.choice([3, 4]),
                                feats={"modrs", "path"}, suffix=str(i), body=body)
         files.update(t.files)
         kind = rng.choice(["unformatted"] * 5 + ["formatted"] * 2 + ["broken"] * 2)
@@ -79,7 +83,9 @@ def generate(rng, tier):
             victim = rng.choice(t.reach)
             files[victim] = files[victim] + rng.choice(["fn broken( {\n", "fn x() { let = ; }\n", "fn r() { let _ = 0b12; }\n"])
         inputs.append({"root": t.root, "files": list(t.reach), "kind": kind, "dir": d, "rootattrs": extra == SKIPMAC, "perfile": extra == "perfile"})
-        if rng.chance(45):
+        if extra == "warn":
+            files[os.path.join(d, "rustfmt.toml")] = "unstable_features = true\nerror_on_line_overflow = true\n"
+        elif rng.chance(45):
             opts = gen_config.draw_opts(rng, rng.range(1, 3), allow_alias=False,
                                         keys=["tab_spaces", "max_width", "hard_tabs", "brace_style", "fn_params_layout",
                                               "newline_style", "reorder_imports", "imports_granularity", "style_edition",
@@ -389,6 +395,9 @@ def execute(case):
         # (c) hash seeds
         for k in (1, 2, 3):
             res, pf, muts, argv = run(list(perms[0]), seed=(case["hashseed"] * 31 + k * 104729) & 0xFFFFFFFF)
+            if res.stderr != base_res.stderr and b"rustc-ice" not in res.stderr + base_res.stderr:
+                v.add("C15:hashseed-reports", "same invocation, another hash seed: the diagnostics differ (%r vs %r); argv=%s" % (
+                    core.text_of(res.stderr)[:200], core.text_of(base_res.stderr)[:200], argv))
             if pf != base_pf or res.exit != base_res.exit:
                 diff = sorted(f for f in set(pf) | set(base_pf) if pf.get(f) != base_pf.get(f))
                 ign = any("ignore" in core.file_bytes(s).decode("utf-8", "replace") for p, s in world["files"].items() if p.endswith("rustfmt.toml") and os.path.dirname(p) and any(d.startswith(os.path.dirname(p)) for d in diff))
